@@ -20,7 +20,7 @@ class C07(Check):
     RULE = ('seeded random typed iff/xor-free formulas (predicates over arithmetic terms, Boolean/temporal above); offline values (and online for '
             'past-time formulas) compared with the Boolean semantics sat of Sat.v: v > 0 => sat, v < 0 => not sat, at every sample; '
             'for formulas whose predicates compare one variable with a constant, a perturbed trace with sup-distance < |rho(t)| must keep the sign at t; '
-            'non-trivial = some sample has non-zero finite or infinite robustness and formula has >= 3 nodes; distinct by (formula, data)')
+            '35% of the cases are also run under one of the four interface-aware semantics with a random input/output assignment (sign soundness for every predicate kind, C07_ia); non-trivial = some sample has non-zero finite or infinite robustness and formula has >= 3 nodes; distinct by (formula, data)')
 
     def gen_cases(self, rng, tier):
         cases = []
@@ -45,7 +45,11 @@ class C07(Check):
             cols = fml.gen_trace(rng, nv, n)
             # perturbation: every sample moves by at most 1/2 (values are integers, robustness too)
             pert = [[v + rng.choice([-0.5, -0.25, 0, 0.25, 0.5]) for v in col] for col in cols]
-            cases.append({'f': f, 'n': n, 'nv': nv, 'cols': cols, 'pert': pert, 'times': list(range(n)), 'simple': simple_preds(f)})
+            c = {'f': f, 'n': n, 'nv': nv, 'cols': cols, 'pert': pert, 'times': list(range(n)), 'simple': simple_preds(f)}
+            if rng.random() < 0.35:
+                # the same under an interface-aware semantics: predicates become +-inf / 0, the sign must stay sound (C07_ia)
+                c['ia'] = {'sem': rng.choice(['output-robustness', 'input-robustness', 'output-vacuity', 'input-vacuity']), 'io': [rng.randint(0, 1) for _ in range(nv)]}
+            cases.append(c)
         return cases
 
     def model_lines(self, c):
@@ -59,6 +63,11 @@ class C07(Check):
             out.append(offline_case(c['f'], c['cols'], c['times'], c['nv']))
         if not fml.has_future(c['f']):
             out.append(online_case(c['f'], c['cols'], c['times'], c['nv']))
+        if c.get('ia'):
+            kw = {'semantics': c['ia']['sem'], 'io': {fml.VARS[i]: ('input' if (c['ia']['io'] + [0] * c['nv'])[i] else 'output') for i in range(c['nv'])}}
+            out.append(offline_case(c['f'], c['cols'], c['times'], c['nv'], **kw))
+            if not fml.has_future(c['f']):
+                out.append(online_case(c['f'], c['cols'], c['times'], c['nv'], **kw))
         return out
 
     def judge(self, c, mlines, ires):
@@ -82,7 +91,12 @@ class C07(Check):
         pert = [p[1] for p in sigs[1][0]]
         num = lambda v: float(v) if not isinstance(v, str) else float(v)
         det = {'sat': sat, 'offline': off}
-        streams = [('offline', off)] + ([('online', sigs[2])] if len(sigs) > 2 else [])
+        nstd = 2 if fml.has_future(c['f']) else 3
+        streams = [('offline', off)] + ([('online', sigs[2])] if nstd == 3 else [])
+        if c.get('ia') and len(sigs) > nstd:
+            streams.append(('offline ' + c['ia']['sem'], [p[1] for p in sigs[nstd][0]]))
+            if len(sigs) > nstd + 1:
+                streams.append(('online ' + c['ia']['sem'], sigs[nstd + 1]))
         nz = 0
         for name, vs in streams:
             for t, v in enumerate(vs):
